@@ -304,6 +304,9 @@ def _run(pid, cfg, tier, seed, work, t0, replay):
     paths = []
     for name, body, files in violations:
         paths.append(save_replay(pid, 0, name, body, files))
+        # a digest of the failure next to the VIOLATION line (the replay file holds all of it)
+        for line in body[:6000].splitlines()[:60]:
+            log("  | " + line[:400])
     evidence = {
         "property_id": pid,
         "tier": tier,
